@@ -127,6 +127,71 @@ theorem register_alias_breaks_bijection :
       r.typeOf "alias" = some (.user 0 "Param") ∧ r.nameOf (.user 0 "Param") = some "params" := by
   exact ⟨_, rfl, by decide, by decide⟩
 
+private theorem typeOf_setAssoc (l : List (String × VType)) (n : String) (t : VType) (nx : Nat) :
+    Reg.typeOf ⟨setAssoc l n t, nx⟩ n = some t := by
+  induction l with
+  | nil => simp [setAssoc, Reg.typeOf]
+  | cons hd r ih =>
+    obtain ⟨k0, v0⟩ := hd
+    unfold setAssoc
+    by_cases h : n = k0
+    · subst h; simp [Reg.typeOf]
+    · have h' : ¬ k0 = n := fun e => h e.symm
+      simp only [h, ↓reduceIte, Reg.typeOf, List.find?_cons, h', decide_false]
+      exact ih
+
+/-- **`to_nnx_var` asks the registry as it is now, for every collection name**: the Variable made for a
+leaf of collection `col` has the type the current registry gives `col` (standard names are not special),
+in particular the type a caller has just put there with `register_variable_name(col, T, overwrite=True)`;
+an unknown name is registered on the way and afterwards names the Variable's type. -/
+theorem to_nnx_var_uses_registry (r : Reg) (col : String) (x : LBox α) (r' : Reg) (v : NVar α)
+    (h : toNnxVar r col x = .ok (r', v)) :
+    r'.typeOf col = some v.vtype ∧
+    (∀ t, r.typeOf col = some t → v.vtype = t ∧ r' = r) ∧
+    (∀ (r0 : Reg) (t : VType) (ow : Bool), r0.register col t ow = .ok r → v.vtype = t) := by
+  simp only [toNnxVar, bind_ok, pure, Except.pure, Except.ok.injEq, Prod.mk.injEq] at h
+  obtain ⟨⟨r1, t1⟩, htf, v1, hconv, rfl, rfl⟩ := h
+  have hv : v1.vtype = t1 := by
+    cases x with
+    | nnxMeta vt a md =>
+      simp only [toNnxVarWith] at hconv
+      split at hconv
+      · rename_i e; cases hconv; exact e.symm
+      · cases hconv
+    | plain a => cases hconv; rfl
+    | partitioned a n m => cases hconv; rfl
+    | logical a n m ru => cases hconv; rfl
+    | box c a f => cases hconv; rfl
+  have hcur : ∀ t, r.typeOf col = some t → t1 = t ∧ r1 = r := by
+    intro t ht
+    simp only [Reg.typeFromName, ht, Except.ok.injEq, Prod.mk.injEq] at htf
+    exact ⟨htf.2.symm, htf.1.symm⟩
+  refine ⟨?_, ?_, ?_⟩
+  · rw [hv]
+    cases ht : r.typeOf col with
+    | some t => obtain ⟨rfl, rfl⟩ := hcur t ht; exact ht
+    | none =>
+      simp only [Reg.typeFromName, ht, ↓reduceIte, Except.ok.injEq, Prod.mk.injEq] at htf
+      obtain ⟨rfl, rfl⟩ := htf
+      have hnone : (r.cache.find? fun e => e.1 = col) = none := by
+        simpa [Reg.typeOf] using ht
+      simp [Reg.typeOf, List.find?_append, hnone]
+  · intro t ht; rw [hv]; exact hcur t ht
+  · intro r0 t ow hreg
+    rw [hv]
+    have : r.typeOf col = some t := by
+      unfold Reg.register at hreg
+      split at hreg
+      · cases hreg
+      · simp only [Except.ok.injEq] at hreg; subst hreg; exact typeOf_setAssoc _ _ _ _
+    exact (hcur t this).1
+
+/-- re-pointing a standard name: after `register_variable_name('cache', KVCache, overwrite=True)` a leaf
+of collection `cache` becomes a `KVCache` Variable, and the name ↔ type round trip holds for it -/
+example : ∃ r, builtinReg.register "cache" (.user 30 "KVCache") true = .ok r ∧
+    ((toNnxVar r "cache" (LBox.plain (7 : Nat))).toOption.map fun p => (p.2.vtype, p.1.nameOf p.2.vtype))
+      = some (.user 30 "KVCache", some "cache") := ⟨_, rfl, by decide⟩
+
 /-! ## variable boxes -/
 
 /-- **box round trip**: `to_linen_var(to_nnx_var(col, x)) = x` for plain arrays, `Partitioned`,
